@@ -9,6 +9,7 @@ Case lines (shared with harness/c10):
   gop o<g> o<k> <op>            the same apply with command_giver = o<g> (if it is not destructed)
   adv <dt>
   sweep
+  setuniq <n>                   verif hook: handle serial := max serial n
 op syntax (comma separated): co,<fn>,<delay>,<tag> | cofp,<fn>,<delay>,<tag> | coa,.. | coafp,.. (extra arguments) | rmh,<tag> | rmn,<fn> | fh,<tag> | fn,<fn> | rmall |
   dest,o<k> | err | info | reload | usage
 -/
@@ -77,6 +78,10 @@ def parseLine (p : Parsed) (line : String) : Parsed :=
     | some d => { p with cmds := Cmd.adv d :: p.cmds }
     | none => { p with bad := line :: p.bad }
   | ["sweep"] => { p with cmds := Cmd.sweep :: p.cmds }
+  | ["setuniq", n] =>
+    match n.toNat? with
+    | some k => { p with cmds := Cmd.setUnique k :: p.cmds }
+    | none => { p with bad := line :: p.bad }
   | _ => if line.startsWith "#" then p else { p with bad := line :: p.bad }
 
 def parseCase (lines : List String) : Parsed :=
@@ -205,7 +210,7 @@ def judge (trace : List String) : List String :=
 def runModel (lines : List String) : List String :=
   let p := parseCase lines
   if !p.bad.isEmpty then p.bad.map (fun l => s!"bad-line {l}")
-  else (events (runCmds (scriptsOf p) World.init p.cmds)).map render
+  else (eventsC (runCmds (scriptsOf p) World.init p.cmds)).map render
 
 def runJudge (body : List String) : List String :=
   let (_input, impl) := splitJudge body
